@@ -15,7 +15,7 @@ LEVEL = "exploration"
 ANCHORS = ("ladim/timekeeper.py", "ladim/ROMS.py", "ladim/release.py", "ladim/out_netcdf.py")
 RULE = ("pairs of runs of the real model: a time-reversed run from S back to E, and a forward run from S to 2S-E in the "
         "world whose forcing frames are mirrored about S with negated velocities and whose release times are "
-        "mirrored; several forcing files, irregular frames, several release times, discrete and continuous release, "
+        "mirrored; several forcing files, irregular frames (a share of them off the model time grid), several release times, discrete and continuous release, "
         "deaths, EF/RK2/RK4. Record k of both runs must hold the same pids at the same positions (1e-6 cells); the "
         "reversed run's clock must read S, S-dt, ... at every step, its output time coordinate S - k*period, and every "
         "release must happen at the model step of its stated time. Non-trivial: >= 2 records with particles compared "
@@ -26,7 +26,7 @@ COMPONENTS = {"real": ["TimeKeeper (reversed)", "ROMS Forcing (reversed hand-ove
 ASSUMPTIONS = ["scalar forcing carries frame-identifying values and is therefore left out of the pair comparison"]
 TIERS = {"quick": dict(runs=500, budget_s=50, shrink=100),
          "thorough": dict(runs=40000, budget_s=900, shrink=200)}
-REQUIRED_PROBES = ["multi_file", "several_release_times", "continuous", "rk", "death", "irregular_frames"]
+REQUIRED_PROBES = ["multi_file", "several_release_times", "continuous", "rk", "death", "irregular_frames", "frames_off_grid"]
 
 PROFILE = gen.profile(
     nsteps=(2, 30), p_reversed=1.0, p_land=0.4, p_subgrid=0.3, p_bathy_var=0.4, N=(1, 4), p_levels=0.5,
@@ -38,7 +38,22 @@ PROFILE = gen.profile(
 
 
 def generate(seed: int, tier: str, idx: int) -> dict:
-    return gen.gen_scenario(seed, PROFILE)
+    s = stream(seed, "c10")
+    sc = gen.gen_scenario(seed, PROFILE)
+    dt = truth.dt_s(sc)
+    if s.chance(0.3) and dt >= 4:
+        # forcing frames off the model time grid (e.g. hourly frames with a 40-minute step): the pair
+        # relation must hold all the same.  One more frame in front keeps the window covered.
+        fr = sc["frames"]
+        fr["phase_s"] = dt // s.pick([2, 3, 4])
+        fr["offsets"] = [fr["offsets"][0] - 1, *fr["offsets"]]
+        for c in ("u", "v"):
+            if sc["flow"].get("amp_" + c):
+                sc["flow"]["amp_" + c] = [round(s.uniform(0.35, 1.0), 3), *sc["flow"]["amp_" + c]]
+        if fr.get("split"):
+            fr["split"][0] += 1
+        fr["time_units"] = "epoch"
+    return sc
 
 
 def mirrored(sc) -> dict:
@@ -47,7 +62,13 @@ def mirrored(sc) -> dict:
     b["time"].pop("reversed", None)
     offs = sc["frames"]["offsets"]
     n = len(offs)
-    b["frames"]["offsets"] = [-o for o in reversed(offs)]
+    ph = int(sc["frames"].get("phase_s", 0))
+    if ph:
+        # the mirror image of start + o*dt + ph is start + (-o-1)*dt + (dt - ph)
+        b["frames"]["offsets"] = [-o - 1 for o in reversed(offs)]
+        b["frames"]["phase_s"] = truth.dt_s(sc) - ph
+    else:
+        b["frames"]["offsets"] = [-o for o in reversed(offs)]
     if sc["frames"].get("split"):
         b["frames"]["split"] = list(reversed(sc["frames"]["split"]))
     if sc["frames"].get("per_file"):
@@ -149,6 +170,8 @@ def execute(sc) -> Result:
                 res.probes[name] += 1
         if ("rk2" in f or "rk4" in f) and ncmp:
             res.probes["rk"] += 1
+        if sc["frames"].get("phase_s") and ncmp:
+            res.probes["frames_off_grid"] += 1
         if "death_ibm" in f and ncmp:
             res.probes["death"] += 1
     finally:
